@@ -87,6 +87,7 @@ type Node struct {
 	Name     string
 	Cfg      NodeCfg
 	WorkDir  string
+	WorkDirAs string // when set: how the configuration spells the work_dir (trailing slash, ./ prefix, doubled slash)
 	V        *revocation.CertRevocationValidator
 	ProvErr  error
 	Provd    bool
@@ -249,7 +250,11 @@ func (h *Harness) WriteFile(rel string, data []byte) string {
 // StartProvision starts Provision as a client task.
 func (h *Harness) StartProvision(n *Node) *Task {
 	v := &revocation.CertRevocationValidator{}
-	if err := json.Unmarshal([]byte(n.Cfg.JSON(n.WorkDir)), v); err != nil {
+	wdj := n.WorkDir
+	if n.WorkDirAs != "" {
+		wdj = n.WorkDirAs // the same directory, spelled differently in the configuration
+	}
+	if err := json.Unmarshal([]byte(n.Cfg.JSON(wdj)), v); err != nil {
 		panic(err)
 	}
 	n.V = v
